@@ -245,7 +245,9 @@ func c06LastElement(r *verdict.Run) {
 	r.Set("last_element_doors", len(doors))
 }
 
-var c06Patterns = []string{"*", "k*", "?1", "k[ab]*", "k[a-c]1", "k[^a]1", "k\\*", "*1", "k?1", "[a-z]*", "kb*", "*[0-9]", "k**1", "nomatch", "k[b-a]1", "K*", "k[abc", "*\\", "k[]1", "*a*"}
+var c06Patterns = []string{"*", "k*", "?1", "k[ab]*", "k[a-c]1", "k[^a]1", "k\\*", "*1", "k?1", "[a-z]*", "kb*", "*[0-9]", "k**1", "nomatch", "k[b-a]1", "K*", "k[abc", "*\\", "k[]1", "*a*",
+	// names are bytes: one multi-byte character is several positions, two different bytes that are not UTF-8 are different
+	"w?", "w??", "w???", "w\xc3\xa9*", "w\xff*", "w\xfe*", "w[\xfe]*", "w[^\xff]*", "w[\xfd-\xff]?", "*\xa9?"}
 
 func c06Gen(rng *rand.Rand, m *model.Model, keys []string) []string {
 	k := pick(rng, keys)
@@ -361,13 +363,13 @@ func c06Gen(rng *rand.Rand, m *model.Model, keys []string) []string {
 func checkC06(r *verdict.Run) {
 	r.Rule = "(1) exhaustive matrix: every data-command template (a canonical valid invocation of each command plus 130 invocations that fail on their arguments) x target key of every type (missing, string, list, hash, set, a string holding the empty value, and the typed ones with a TTL) on a fresh emulator, reply and full state vs the reference model, failed commands inert; " +
 		"(2) removing the last element through 30 different doors, then EXISTS/TYPE/KEYS/SCAN/DBSIZE/LLEN/HLEN/SCARD vs model; " +
-		"(3) random keyspace sequences (DEL/UNLINK/EXISTS/TOUCH/TYPE/RENAME/RENAMENX/COPY/KEYS with glob patterns/RANDOMKEY/DBSIZE/SORT with options) mixed with writes of every type; (4) keyspace churn: sequences of 400-1200 steps creating, deleting, renaming, copying and expiring 37 key names so that the keyspace table grows, shrinks and ages, KEYS */DBSIZE compared after every step. distinct = matrix cells + doors + (command+options, prior class, outcome)"
+		"(3) random keyspace sequences (DEL/UNLINK/EXISTS/TOUCH/TYPE/RENAME/RENAMENX/COPY/KEYS with glob patterns/RANDOMKEY/DBSIZE/SORT with options) mixed with writes of every type; (4) keyspace churn: sequences of 400-1200 steps creating, deleting, renaming, copying and expiring 41 key names so that the keyspace table grows, shrinks and ages, KEYS */DBSIZE compared after every step. distinct = matrix cells + doors + (command+options, prior class, outcome)"
 	types := []string{"missing", "string", "list", "hash", "set", "string-empty", "string+ttl", "list+ttl", "hash+ttl", "set+ttl"}
 	c06Matrix(r, types)
 	r.SetExhaustive(false)
 	c06LastElement(r)
 	runDiffSequences(r, tierPick(r, 200, 4000), func(rng *rand.Rand) int { return 40 + rng.Intn(40) },
-		[]string{"ka1", "kb1", "kc1", "ka2", "w_1", "w_2", "w_3", "w_a", "w_b"}, [][]string{{"SET", "ka1", "s"}, {"RPUSH", "kb1", "3", "1", "2"}, {"SADD", "kc1", "2", "3", "1"}, {"HSET", "ka2", "f", "v"}, {"SET", "w_1", "30"}, {"SET", "w_2", "20"}, {"SET", "w_3", "10"}}, c06Gen)
+		[]string{"ka1", "kb1", "kc1", "ka2", "w_1", "w_2", "w_3", "w_a", "w_b", "w\xc3\xa9", "w\xffz", "w\xfez"}, [][]string{{"SET", "ka1", "s"}, {"RPUSH", "kb1", "3", "1", "2"}, {"SADD", "kc1", "2", "3", "1"}, {"HSET", "ka2", "f", "v"}, {"SET", "w_1", "30"}, {"SET", "w_2", "20"}, {"SET", "w_3", "10"}}, c06Gen)
 	runDiffSequencesN(r, tierPick(r, 24, 240), 2, 10000, func(rng *rand.Rand) int { return 400 + rng.Intn(800) },
 		append([]string{"churn"}, c06ChurnKeys...), [][]string{{"MSET", "key:apple", "1", "key:banana", "2", "key:cherry", "3", "key:date", "4", "key:fig", "5", "key:grape", "6", "k1", "7"}}, c06ChurnGen)
 }
@@ -380,7 +382,7 @@ var c06ChurnKeys = func() []string {
 	for _, m := range c05ChurnMembers {
 		ks = append(ks, "key:"+m)
 	}
-	return append(ks, "k1", "k2", "k3", "k4", "k5", "k6")
+	return append(ks, "k1", "k2", "k3", "k4", "k5", "k6", "0aaaaaaa", "8aaaaaaa", "aaaaaaaaAbbbbbbb", "aaaaaaaaQbbbbbbb")
 }()
 
 func c06ChurnGen(rng *rand.Rand, m *model.Model, keys []string) []string {
